@@ -188,6 +188,24 @@ def record_and_validate(chk, n, rng):
 
 def replay_file(path):
     rec = json.load(open(path))
+    if rec.get("checker") == "wtrace" and rec.get("events"):
+        # a recorded trace: re-validate the stored events against the current Trace_Writer.tla
+        d = vlib.scratch("wtrace-replay-")
+        try:
+            tp = os.path.join(d, "t.ndjson")
+            with open(tp, "w") as f:
+                for ev in rec["events"]:
+                    f.write(json.dumps(ev) + "\n")
+            r = validate_trace(tp, ["c%d" % (k + 1) for k in range(rec["job"]["clients"])])
+        finally:
+            import shutil
+            shutil.rmtree(d, ignore_errors=True)
+        if r.ok:
+            print("replay: the recorded trace is a behaviour of Writer.tla (current spec)")
+            return vlib.EXIT_OK
+        print("rejected:", r.printed.get("REJECTED"), r.violated, (r.error or "")[:300])
+        print("VIOLATION property=%s replay=%s" % (PROP, path))
+        return vlib.EXIT_VIOLATION
     binary = vlib.build_harness()
     res = vlib.run_sharded(binary, "writer", {}, [rec["behaviour"]], shards=1)
     print(json.dumps(res, indent=1))
